@@ -31,6 +31,7 @@ type Exec struct {
 	params          map[string]int
 	mapNondet       bool
 	eofErr, ueofErr *Iface
+	sentinels       map[string]Iface
 	flagOverride    map[string]Value
 	snaps           []snapRec
 	checkpoints     []*FNode
